@@ -19,7 +19,7 @@ RULE = ("modules of every entry kind (empty docs, classes nested to depth 3 with
         "distinct by SHA-1 of the case")
 ASSUMPTIONS = ["docutils 0.23 is the structure judge; Sphinx directives are stubbed (content parsed as nested body)",
                "argument values contain no line breaks; doc bodies are valid standalone reST"]
-BUDGET = {"quick": {"shards": 4, "examples": 120}, "thorough": {"shards": 16, "examples": 2000}}
+BUDGET = {"quick": {"shards": 8, "examples": 100}, "thorough": {"shards": 16, "examples": 2000}}
 
 _sent = G.benign_line()
 
